@@ -11,11 +11,13 @@ of length <= 5 over the spec's alphabet plus one foreign name, and compared with
 `derivMatch` (the judge: implementation != Spec is a concrete violation, replay = spec + sequence) and (b)
 the code-shaped Lean model incl. the selected model class and *indexFailingChild.
 
-Document tier: generated documents with an internal DTD subset are parsed by XercesDOMParser with
-validation always; 'no validity error' must coincide with the executable Lean spec `validDoc`, violations
-must be errors (never fatal), and the attribute values (defaults included) must be the same with
-validation off."""
-import json
+Document tier: generated documents with internal, external (served from memory by an entity resolver) and
+split DTD subsets, standalone yes/no/absent, general entities, are parsed in 16 modes ({XercesDOMParser,
+SAXParser} x {IGXMLScanner, DGXMLScanner} x namespaces off/on x validation always/never); 'no validity error'
+must coincide with the executable Lean spec `validDoc` (incl. the standalone-declaration VCs), violations
+must be errors (never fatal) unless the Spec says not well-formed (WFC Entity Declared), and the reported
+attributes (defaults included) and expanded entity text must be the same in every mode and equal the Spec's."""
+import json, re
 import common
 
 PID = "C07"
@@ -28,8 +30,17 @@ RULE = ("content specs: EMPTY, ANY, (#PCDATA), (#PCDATA)*, all mixed lists over 
         "particles of depth <= 2 over 2 names (3 names in thorough), a curated list of ambiguous / non-deterministic models, "
         "random particles of depth <= 4 over 1-4 names; for each spec EVERY child sequence of length <= 5 over its alphabet "
         "plus one foreign name is evaluated on implementation, model and Spec. evaluations = number of (spec, sequence) "
-        "pairs; distinct_nontrivial = number of distinct specs having both accepted and rejected sequences")
-ASSUMPTIONS = ["children passed to validateContent are element QNames (never PCDATA), as the DTD scanners do",
+        "pairs plus document parses; distinct_nontrivial = number of distinct specs having both accepted and rejected sequences. "
+        "Document tier: random DTDs (2-4 element types, all content-spec kinds, 0-3 attribute definitions of every modelled type and "
+        "default kind, 0-2 general entities) whose declarations are placed in the internal subset, an external subset served from memory, or "
+        "split; standalone yes/no/absent; instance sampled from the content models; 65% of the documents get ONE mutation out of "
+        "36 kinds (instance, DTD, standalone clauses of XML 1.0 2.9, subset placement, entity references); each document is parsed in 16 modes "
+        "({XercesDOMParser, SAXParser} x {IGXMLScanner, DGXMLScanner} x namespaces off/on x validation always/never) with parser objects reused")
+ASSUMPTIONS = ["document tier: for invalid documents with class 'character-data-not-allowed' or 'unique-element-type-declaration' the delivered "
+               "character data is not compared (a validating parse reports character data in element content as a validity error and does not "
+               "deliver it; of duplicated element declarations the library lets the last one take effect)",
+               "document tier: ENTITY/ENTITIES/NOTATION attribute types, parameter entities and unparsed entities are not generated",
+               "children passed to validateContent are element QNames (never PCDATA), as the DTD scanners do",
                "content spec trees have the shape DTDScanner builds (binary Sequence/Choice, unary ?,*,+); n-ary groups are nested binary",
                "names are compared as Nat ids (raw-name string comparison is XMLString::equals)"]
 TRUSTED = ["XV.Spec.ContentModel (XML 1.0 section 3.2 content models as regular languages) as transcribed"]
@@ -308,7 +319,10 @@ def replay(ctx, path):
 
 # ------------------------------------------------------------------ document tier
 # abstract documents (see lean/XV/Spec/DtdValid.lean, lean/XV/Driver/DtdValid.lean); the Spec `validDoc` is the judge.
+# doc = {doctype, standalone 0 absent|1 "no"|2 "yes", hasExt, decls:[{name, spec, ext, atts:[(aname, type, dflt, ext)]}],
+#        ents:[(name, ext)], root: elem};  elem = {name, text, ws, refs:[ent], attrs:[(aname, [tok], padded)], children}
 NONNAME = [90, 91]          # tokens that are Nmtokens but not Names ("9z90")
+MODES = ["%s-%s-ns%d-v%d" % (p, sc, ns, v) for p in ("dom", "sax") for sc in ("ig", "dg") for ns in (0, 1) for v in (1, 0)]
 
 def tok_str(t):
     return "v%d" % t if t < 90 else "9z%d" % t
@@ -334,24 +348,48 @@ def dflt_text(d):
     return "#REQUIRED" if d == "REQ" else "#IMPLIED"
 
 def eff_atts(decls, name):
+    """binding attribute definitions: internal subset first, first definition of a name wins"""
+    allatts = [a for d in decls if d["name"] == name for a in d["atts"]]
     out, seen = [], set()
-    for d in decls:
-        if d["name"] == name:
-            for a in d["atts"]:
-                if a[0] not in seen:
-                    seen.add(a[0]); out.append(a)
+    for a in [x for x in allatts if not x[3]] + [x for x in allatts if x[3]]:
+        if a[0] not in seen:
+            seen.add(a[0]); out.append(a)
     return out
 
+def find_decl(decls, name):
+    for d in decls:
+        if d["name"] == name and not d["ext"]:
+            return d
+    for d in decls:
+        if d["name"] == name:
+            return d
+    return None
+
+def find_ent(ents, n):
+    for e in ents:
+        if e[0] == n and not e[1]:
+            return e
+    for e in ents:
+        if e[0] == n:
+            return e
+    return None
+
+def b01(x):
+    return "1" if x else "0"
+
 def abstract_line(doc):
-    w = ["X", str(doc["doctype"]), str(len(doc["decls"]))]
+    w = ["X", str(doc["doctype"]), str(doc["standalone"]), b01(doc["hasExt"]), str(len(doc["decls"]))]
     for d in doc["decls"]:
-        w += ["EL", str(d["name"]), d["spec"], str(len(d["atts"]))]
+        w += ["EL", str(d["name"]), d["spec"], b01(d["ext"]), str(len(d["atts"]))]
         for a in d["atts"]:
-            w += [str(a[0]), type_tok(a[1]), dflt_tok(a[2])]
+            w += [str(a[0]), type_tok(a[1]), dflt_tok(a[2]), b01(a[3])]
+    w.append(str(len(doc["ents"])))
+    for e in doc["ents"]:
+        w += [str(e[0]), b01(e[1])]
     def el(e):
-        w.extend(["E", str(e["name"]), "1" if e["text"] else "0", str(len(e["attrs"]))])
+        w.extend(["E", str(e["name"]), b01(e["text"]), b01(e["ws"]), val_str(e["refs"]), str(len(e["attrs"]))])
         for a in e["attrs"]:
-            w.extend([str(a[0]), val_str(a[1])])
+            w.extend([str(a[0]), val_str(a[1]), b01(a[2])])
         w.append(str(len(e["children"])))
         for c in e["children"]:
             el(c)
@@ -359,37 +397,45 @@ def abstract_line(doc):
     return " ".join(w)
 
 def render(doc, r):
-    """XML text of an abstract document (well-formed by construction)"""
-    out = ["<!DOCTYPE e%d [" % doc["doctype"]]
+    """(document text, external subset text or None) of an abstract document; well-formed by construction
+    except for the entity-declared WFC, which the Spec judges"""
+    internal, external = [], []
     for d in doc["decls"]:
-        out.append("<!ELEMENT e%d %s>" % (d["name"], spec_text(d["spec"])))
-        if d["atts"]:
-            if r.chance(1, 3):
-                for a in d["atts"]:
-                    out.append("<!ATTLIST e%d a%d %s %s>" % (d["name"], a[0], type_text(a[1]), dflt_text(a[2])))
-            else:
-                out.append("<!ATTLIST e%d %s>" % (d["name"], " ".join("a%d %s %s" % (a[0], type_text(a[1]), dflt_text(a[2])) for a in d["atts"])))
+        (external if d["ext"] else internal).append("<!ELEMENT e%d %s>" % (d["name"], spec_text(d["spec"])))
+        for a in d["atts"]:
+            (external if a[3] else internal).append("<!ATTLIST e%d a%d %s %s>" % (d["name"], a[0], type_text(a[1]), dflt_text(a[2])))
+    for e in doc["ents"]:
+        (external if e[1] else internal).append('<!ENTITY n%d "t">' % e[0])
+    decl = "" if doc["standalone"] == 0 else '<?xml version="1.0" standalone="%s"?>\n' % ("yes" if doc["standalone"] == 2 else "no")
+    out = [decl + "<!DOCTYPE e%d%s [" % (doc["doctype"], ' SYSTEM "ext.dtd"' if doc["hasExt"] else "")]
+    out += internal
     out.append("]>")
     def el(e):
-        atts = {a[0]: a for a in eff_atts(doc["decls"], e["name"])}
         s = "<e%d" % e["name"]
         for a in e["attrs"]:
             v = " ".join(tok_str(x) for x in a[1])
-            d = atts.get(a[0])
-            if d is not None and d[1] != "C" and a[1] and r.chance(1, 4):
-                v = " " + v.replace(" ", "  ") + " "          # tokenized types are normalised (XML 1.0 3.3.3)
+            if a[2]:
+                v = " " + v.replace(" ", "  ") + " "
             s += ' a%d="%s"' % (a[0], v)
-        if not e["text"] and not e["children"]:
+        if not e["text"] and not e["children"] and not e["ws"] and not e["refs"]:
             return s + ("/>" if r.chance(2, 3) else "></e%d>" % e["name"])
         s += ">"
-        ws = e["children"] and r.chance(1, 3)
+        ws = "\n " if e["ws"] else ""
         if e["text"]:
             s += "t"
-        for c in e["children"]:
-            s += ("\n " if ws else "") + el(c)
-        return s + ("\n" if ws else "") + "</e%d>" % e["name"]
+        refs = list(e["refs"])
+        if not e["children"]:
+            s += ws + "".join("&n%d;" % x for x in refs)
+        for k, c in enumerate(e["children"]):
+            s += ws + el(c)
+            if refs and k == 0:
+                s += "".join("&n%d;" % x for x in refs)
+        return s + ("\n" if e["ws"] and e["children"] else "") + "</e%d>" % e["name"]
     out.append(el(doc["root"]))
-    return "\n".join(out)
+    ext = None
+    if doc["hasExt"]:
+        ext = ('<?xml version="1.0" encoding="UTF-8"?>\n' if r.chance(1, 3) else "") + "\n".join(external) + ("\n" if external else "")
+    return "\n".join(out), ext
 
 def sample_cm(r, p, pos, minimal):
     """a word of the particle in Polish notation starting at pos; returns (word, next pos)"""
@@ -415,6 +461,9 @@ def sample_cm(r, p, pos, minimal):
 
 def gen_doc(r):
     nel = 2 + r.below(3)
+    extmode = r.below(4)            # 0: internal subset only, 1: everything external, 2/3: split
+    def ext():
+        return False if extmode == 0 else True if extmode == 1 else r.chance(1, 2)
     decls = []
     for n in range(nel):
         k = r.below(20)
@@ -450,12 +499,14 @@ def gen_doc(r):
                     elif t == "N": v = [r.choice([1, 2, 90])]
                     else: v = [r.choice([1, 2, 90]) for _ in range(1 + r.below(2))]
                     d = "IMP" if v is None else (("FIX" if k == 2 else "DEF"), v)
-            atts.append((a, t, d))
-        decls.append({"name": n, "spec": spec, "atts": atts})
+            atts.append((a, t, d, ext()))
+        decls.append({"name": n, "spec": spec, "atts": atts, "ext": ext()})
+    ents = [(k, ext()) for k in range(r.below(3))]
+    standalone = r.choice([0, 1, 2, 2])
     state = {"next_id": 20, "ids": [], "refs": []}
     def gen_elem(name, depth):
-        d = next((x for x in decls if x["name"] == name), None)
-        e = {"name": name, "text": False, "attrs": [], "children": []}
+        d = find_decl(decls, name)
+        e = {"name": name, "text": False, "ws": False, "refs": [], "attrs": [], "children": []}
         if d is None:
             return e
         sp = d["spec"]
@@ -472,10 +523,12 @@ def gen_doc(r):
             kids, _ = sample_cm(r, sp[1:], 0, depth >= 2)
             if depth >= 6:
                 kids = []
-        if len(kids) > 6:
-            kids = kids[:6] if depth >= 4 else kids
-        e["children"] = [gen_elem(k, depth + 1) for k in kids[:12]]
-        for (an, t, df) in eff_atts(decls, name):
+        if sp != "E":
+            e["ws"] = r.chance(1, 3)
+        if sp[0] in "AMN" and ents and r.chance(1, 3):
+            e["refs"] = [r.choice(ents)[0] for _ in range(1 + r.below(2))]
+        e["children"] = [gen_elem(k, depth + 1) for k in kids[:6 if depth >= 4 else 12]]
+        for (an, t, df, _x) in eff_atts(decls, name):
             if df == "REQ": want = True
             elif df == "IMP": want = r.chance(1, 2)
             elif df[0] == "DEF": want = r.chance(2, 5)
@@ -493,13 +546,33 @@ def gen_doc(r):
                 state["refs"].append(v)
             elif t == "N": v = [r.choice([1, 2, 3, 90])]
             else: v = [r.choice([1, 2, 3, 90]) for _ in range(1 + r.below(3))]
-            e["attrs"].append((an, v))
+            padded = bool(v) and t != "C" and r.chance(1, 4)
+            e["attrs"].append((an, v, padded))
         return e
     root = gen_elem(0, 0)
     for v in state["refs"]:
         for k in range(len(v)):
             v[k] = r.choice(state["ids"]) if state["ids"] else 77      # 77: unresolved (the Spec judges)
-    return {"doctype": 0, "decls": decls, "root": root}, nel
+    doc = {"doctype": 0, "standalone": standalone, "hasExt": False, "decls": decls, "ents": ents, "root": root}
+    if standalone == 2 and r.chance(3, 4):
+        make_standalone_ok(doc)
+    return doc, nel
+
+def make_standalone_ok(doc):
+    """repair a document so that standalone="yes" is truthful (XML 1.0 2.9); mutations then break one clause"""
+    decls = doc["decls"]
+    for e in all_elems(doc["root"], []):
+        have = {a[0] for a in e["attrs"]}
+        at = eff_atts(decls, e["name"])
+        for (an, t, df, x) in at:
+            if x and isinstance(df, tuple) and an not in have:
+                e["attrs"].append((an, list(df[1]), False))
+        byname = {a[0]: a for a in at}
+        e["attrs"] = [(n, v, p and not (n in byname and byname[n][3] and byname[n][1] != "C")) for (n, v, p) in e["attrs"]]
+        d = find_decl(decls, e["name"])
+        if d is not None and d["ext"] and d["spec"][0] == "K":
+            e["ws"] = False
+        e["refs"] = [x for x in e["refs"] if (find_ent(doc["ents"], x) or (0, True))[1] is False]
 
 def all_elems(e, acc):
     acc.append(e)
@@ -510,11 +583,17 @@ def all_elems(e, acc):
 MUTATIONS = ["root", "child-del", "child-ins", "child-repl", "child-swap", "text", "attr-del", "attr-undeclared", "attr-value",
              "id-dup", "idref-break", "id-nonname", "fixed-change", "enum-bad", "multi-token", "empty-value",
              "dtd-dup-elem", "dtd-second-id", "dtd-id-default", "dtd-enum-default", "dtd-dup-token", "dtd-mixed-dup",
-             "dtd-undeclare", "dtd-idref-default", "dtd-content", "dtd-required"]
+             "dtd-undeclare", "dtd-idref-default", "dtd-content", "dtd-required",
+             "sa-omit-default", "sa-omit-default", "sa-omit-fixed", "sa-omit-fixed", "sa-pad", "sa-ws", "sa-extref", "sa-flip", "ext-flip",
+             "ent-undeclared", "ent-ref", "ws"]
 
 def mutate(doc, nel, r):
     """one single-constraint mutation (may be a no-op or leave the document valid: the Spec judges)"""
     kind = r.choice(MUTATIONS)
+    if kind.startswith("sa-") and kind != "sa-flip" and r.chance(5, 6):
+        # a truthful standalone="yes" document, then exactly one clause of 2.9 is broken
+        doc["standalone"] = 2
+        make_standalone_ok(doc)
     es = all_elems(doc["root"], [])
     e = r.choice(es)
     decls = doc["decls"]
@@ -526,12 +605,14 @@ def mutate(doc, nel, r):
                 if a[0] in at and pred(at[a[0]]):
                     c.append((x, k, at[a[0]]))
         return c
+    def setval(x, k, v):
+        x["attrs"][k] = (x["attrs"][k][0], v, x["attrs"][k][2] and bool(v))
     if kind == "root":
         doc["doctype"] = r.below(nel + 1)
     elif kind == "child-del" and e["children"]:
         del e["children"][r.below(len(e["children"]))]
     elif kind == "child-ins":
-        e["children"].insert(r.below(len(e["children"]) + 1), {"name": r.below(nel + 1), "text": False, "attrs": [], "children": []})
+        e["children"].insert(r.below(len(e["children"]) + 1), {"name": r.below(nel + 1), "text": False, "ws": False, "refs": [], "attrs": [], "children": []})
     elif kind == "child-repl" and e["children"]:
         e["children"][r.below(len(e["children"]))]["name"] = r.below(nel + 1)
     elif kind == "child-swap" and len(e["children"]) > 1:
@@ -539,68 +620,75 @@ def mutate(doc, nel, r):
         e["children"][k], e["children"][k + 1] = e["children"][k + 1], e["children"][k]
     elif kind == "text":
         e["text"] = not e["text"]
+    elif kind == "ws":
+        e["ws"] = not e["ws"]
     elif kind == "attr-del" and e["attrs"]:
         del e["attrs"][r.below(len(e["attrs"]))]
     elif kind == "attr-undeclared":
         used = {a[0] for a in e["attrs"]}
         free = [k for k in range(6) if k not in used]
-        e["attrs"].append((r.choice(free), [r.below(4)]))
+        e["attrs"].append((r.choice(free), [r.below(4)], r.chance(1, 4)))
     elif kind == "attr-value" and e["attrs"]:
         k = r.below(len(e["attrs"]))
-        e["attrs"][k] = (e["attrs"][k][0], [r.choice([0, 1, 2, 10, 11, 20, 21, 90]) for _ in range(r.below(3))])
+        setval(e, k, [r.choice([0, 1, 2, 10, 11, 20, 21, 90]) for _ in range(r.below(3))])
     elif kind == "id-dup":
         c = typed(lambda a: a[1] == "I")
         if len(c) > 1:
             (x, k, _), (y, j, _) = c[0], c[-1]
-            y["attrs"][j] = (y["attrs"][j][0], list(x["attrs"][k][1]))
+            setval(y, j, list(x["attrs"][k][1]))
     elif kind == "idref-break":
         c = typed(lambda a: a[1] in ("R", "RS"))
         if c:
             x, k, _ = r.choice(c)
-            v = list(x["attrs"][k][1]); v[r.below(len(v))] = r.choice([78, 79, 90]) if v else 78
-            x["attrs"][k] = (x["attrs"][k][0], v)
+            v = list(x["attrs"][k][1])
+            if v: v[r.below(len(v))] = r.choice([78, 79, 90])
+            setval(x, k, v)
     elif kind == "id-nonname":
         c = typed(lambda a: a[1] == "I")
         if c:
             x, k, _ = r.choice(c)
-            x["attrs"][k] = (x["attrs"][k][0], [r.choice(NONNAME)])
+            setval(x, k, [r.choice(NONNAME)])
     elif kind == "fixed-change":
         c = typed(lambda a: isinstance(a[2], tuple) and a[2][0] == "FIX")
         if c:
             x, k, a = r.choice(c)
-            x["attrs"][k] = (x["attrs"][k][0], list(a[2][1]) + [1] if r.chance(1, 2) else [5])
+            if r.chance(1, 4) and a[1] == "C":
+                x["attrs"][k] = (x["attrs"][k][0], x["attrs"][k][1], True)     # " v " is not the fixed CDATA value "v"
+            else:
+                setval(x, k, list(a[2][1]) + [1] if r.chance(1, 2) else [5])
     elif kind == "enum-bad":
         c = typed(lambda a: isinstance(a[1], tuple))
         if c:
             x, k, a = r.choice(c)
-            x["attrs"][k] = (x["attrs"][k][0], [r.choice([14, 15, 1])])
+            setval(x, k, [r.choice([14, 15, 1])])
     elif kind == "multi-token":
         c = typed(lambda a: a[1] in ("I", "R", "N") or isinstance(a[1], tuple))
         if c:
             x, k, a = r.choice(c)
-            x["attrs"][k] = (x["attrs"][k][0], list(x["attrs"][k][1]) * 2)
+            setval(x, k, list(x["attrs"][k][1]) * 2)
     elif kind == "empty-value":
         c = typed(lambda a: a[1] != "C")
         if c:
             x, k, a = r.choice(c)
-            x["attrs"][k] = (x["attrs"][k][0], [])
+            setval(x, k, [])
     elif kind == "dtd-dup-elem":
         d = r.choice(decls)
-        decls.insert(r.below(len(decls) + 1), {"name": d["name"], "spec": r.choice(["A", "E", d["spec"]]), "atts": [(5, "C", ("DEF", [3]))] if r.chance(1, 2) else []})
+        decls.insert(r.below(len(decls) + 1), {"name": d["name"], "spec": r.choice(["A", "E", d["spec"]]), "ext": r.chance(1, 2) and doc_has_ext(doc),
+                                               "atts": [(5, "C", ("DEF", [3]), False)] if r.chance(1, 2) else []})
     elif kind == "dtd-second-id":
         d = r.choice(decls)
-        d["atts"].append((4, "I", "IMP"))
+        d["atts"].append((4, "I", "IMP", False))
         if r.chance(1, 2) and not any(a[1] == "I" for a in d["atts"][:-1]):
-            d["atts"].append((5, "I", "IMP"))
+            d["atts"].append((5, "I", "IMP", False))
     elif kind == "dtd-id-default":
         d = r.choice(decls)
-        d["atts"].append((4, "I", (r.choice(["DEF", "FIX"]), [60 + r.below(5)])))
+        d["atts"].append((4, "I", (r.choice(["DEF", "FIX"]), [60 + r.below(5)]), False))
     elif kind == "dtd-enum-default":
         d = r.choice(decls)
-        d["atts"].append((4, ("G", [10, 11]), (r.choice(["DEF", "FIX"]), r.choice([[10], [12], [90], [10, 11], [11, 11], [10, 12]]))))
+        d["atts"].append((4, ("G", [10, 11]), (r.choice(["DEF", "FIX"]), r.choice([[10], [12], [90], [10, 11], [11, 11], [10, 12]])), False))
     elif kind == "dtd-dup-token":
         d = r.choice(decls)
-        d["atts"].append((4, ("G", [10, 11, r.choice([10, 12])]), "IMP"))
+        d["atts"].append((4, ("G", [10, 11, r.choice([10, 12])]), "IMP", False))
     elif kind == "dtd-mixed-dup":
         d = r.choice(decls)
         d["spec"] = "M" + "".join(str(r.below(nel)) for _ in range(2 + r.below(2)))
@@ -608,66 +696,194 @@ def mutate(doc, nel, r):
         del decls[1 + r.below(len(decls) - 1)]
     elif kind == "dtd-idref-default":
         d = r.choice(decls)
-        d["atts"].append((4, r.choice(["R", "RS"]), ("DEF", [r.choice([20, 21, 78, 90])])))
+        d["atts"].append((4, r.choice(["R", "RS"]), ("DEF", [r.choice([20, 21, 78, 90])]), False))
     elif kind == "dtd-content":
         d = r.choice(decls)
         d["spec"] = r.choice(["E", "A", "M", "K" + rand_cm(r, 2, nel)])
     elif kind == "dtd-required":
         d = r.choice(decls)
-        d["atts"].append((4, r.choice(["C", "N"]), "REQ"))
+        d["atts"].append((4, r.choice(["C", "N"]), "REQ", r.chance(1, 2) and doc_has_ext(doc)))
+    elif kind in ("sa-omit-default", "sa-omit-fixed"):
+        # an externally declared default / #FIXED value that is needed (2.9, first clause)
+        want = "FIX" if kind == "sa-omit-fixed" else "DEF"
+        c = typed(lambda a: a[3] and isinstance(a[2], tuple) and a[2][0] == want)
+        if c:
+            x, k, _ = r.choice(c)
+            del x["attrs"][k]
+        else:
+            d = find_decl(decls, e["name"])
+            if d is not None and not any(a[0] in (4,) for a in e["attrs"]):
+                t = r.choice(["C", "N", ("G", [10, 11])])
+                d["atts"].append((4, t, (want, [10]), True))
+    elif kind == "sa-pad":
+        c = typed(lambda a: a[1] != "C")
+        if c:
+            x, k, a = r.choice(c)
+            if x["attrs"][k][1]:
+                x["attrs"][k] = (x["attrs"][k][0], x["attrs"][k][1], True)
+    elif kind == "sa-ws":
+        c = [x for x in es if (find_decl(decls, x["name"]) or {"spec": "E"})["spec"][0] == "K"]
+        if c:
+            r.choice(c)["ws"] = True
+    elif kind == "sa-extref":
+        ex = [n for n in doc["ents"] if n[1]]
+        c = [x for x in es if (find_decl(decls, x["name"]) or {"spec": "E"})["spec"][0] in "AMN"]
+        if c:
+            if not ex:
+                doc["ents"].append((7, True)); ex = [(7, True)]
+            r.choice(c)["refs"].append(r.choice(ex)[0])
+    elif kind == "sa-flip":
+        doc["standalone"] = 2 if doc["standalone"] != 2 else r.choice([0, 1])
+    elif kind == "ext-flip":
+        k = r.below(3)
+        if k == 0:
+            d = r.choice(decls); d["ext"] = not d["ext"]
+        elif k == 1:
+            ds = [d for d in decls if d["atts"]]
+            if ds:
+                d = r.choice(ds); j = r.below(len(d["atts"])); a = d["atts"][j]
+                d["atts"][j] = (a[0], a[1], a[2], not a[3])
+        elif doc["ents"]:
+            j = r.below(len(doc["ents"])); doc["ents"][j] = (doc["ents"][j][0], not doc["ents"][j][1])
+    elif kind == "ent-undeclared":
+        e["refs"].append(9)
+    elif kind == "ent-ref" and doc["ents"]:
+        e["refs"].append(r.choice(doc["ents"])[0])
     return kind
 
-def hexdoc(xml):
-    return ".".join("%x" % b for b in xml.encode())
+def doc_has_ext(doc):
+    return any(d["ext"] or any(a[3] for a in d["atts"]) for d in doc["decls"]) or any(e[1] for e in doc["ents"])
 
-def parse_impl(o):
-    f = o.split(" ", 4)
-    if len(f) < 5 or f[0] != "doc":
-        return None
-    try:
-        return {"v": int(f[1][2:]), "f": int(f[2][2:]), "exc": f[3][4:], "attrs": f[4][6:].split(" | ")[0]}
-    except ValueError:
-        return None
+def finish_doc(doc, r):
+    """derive hasExt (sometimes an empty external subset)"""
+    doc["hasExt"] = doc_has_ext(doc) or r.chance(1, 8)
 
-def run_docs(docs):
-    """docs: list of (abstract line, xml).  Returns per doc (spec out, validating impl out, non-validating impl out), stderr"""
-    ab = ("\n".join(a for a, _ in docs) + "\n").encode()
+def doc_flags(doc):
+    """features used only to give violations of one known cause one stable key"""
+    fl = set()
+    for e in all_elems(doc["root"], []):
+        at = {a[0]: a for a in eff_atts(doc["decls"], e["name"])}
+        for (n, v, padded) in e["attrs"]:
+            if padded and n in at and isinstance(at[n][1], tuple):
+                fl.add("enum-padded")
+    return fl
+
+ENUM_NORM_KEY = "doc:enumerated-attribute-value-not-normalised:igxmlscanner-namespaces"
+
+def hexs(text):
+    return ".".join("%x" % b for b in text.encode()) if text else "0"
+
+def parse_modes(o):
+    """harness line -> {mode: {v, f, exc, dump}} or None"""
+    res = {}
+    for seg in o.split(" ## "):
+        f = seg.split(" ", 4)
+        if len(f) < 5 or not f[1].startswith("v=") or not f[4].startswith("dump="):
+            return None
+        try:
+            res[f[0]] = {"v": int(f[1][2:]), "f": int(f[2][2:]), "exc": f[3][4:], "dump": f[4][5:].split(" | ")[0]}
+        except ValueError:
+            return None
+    return res if len(res) == len(MODES) else None
+
+def run_docs(docs, verbose=False):
+    """docs: list of (abstract line, xml, ext).  Returns per doc (spec out, harness line), stderr"""
+    ab = ("\n".join(d[0] for d in docs) + "\n").encode()
     sp = common.run_driver(["dtdspec"], input=ab).decode(errors="replace").split("\n")
-    lines = []
-    for _, x in docs:
-        h = hexdoc(x)
-        lines.append("D " + h); lines.append("DN " + h)
-    p = common.run_harness("hx_cm", input=("\n".join(lines) + "\n").encode(), timeout=3000)
-    o = p.stdout.decode(errors="replace").split("\n")
-    err = p.stderr.decode(errors="replace")
-    while len(o) < len(lines):
-        o.append("CRASH rc=%d %s" % (p.returncode, common.sanitizer_summary(err)) if p.returncode else "NO-OUTPUT")
-    return [(sp[k], o[2 * k], o[2 * k + 1]) for k in range(len(docs))], err
+    lines = ["%s %s %s" % ("MV" if verbose else "M", hexs(d[1]), "-" if d[2] is None else hexs(d[2])) for d in docs]
+    # several harness processes side by side (each reuses its own parser objects); results keep document order
+    from concurrent.futures import ThreadPoolExecutor
+    common.build_harness("hx_cm")
+    nproc = max(1, min(8, common.NCPU // 2, len(lines) // 20 or 1))
+    chunks = [lines[k::nproc] for k in range(nproc)]
+    def work(ch):
+        p = common.run_harness("hx_cm", input=("\n".join(ch) + "\n").encode(), timeout=3000)
+        o = p.stdout.decode(errors="replace").split("\n")
+        e = p.stderr.decode(errors="replace")
+        if o and o[-1] == "": o.pop()
+        while len(o) < len(ch):
+            o.append("CRASH rc=%d %s" % (p.returncode, common.sanitizer_summary(e)) if p.returncode else "NO-OUTPUT")
+        return o, e
+    with ThreadPoolExecutor(nproc) as ex:
+        parts = list(ex.map(work, chunks))
+    o = [None] * len(lines)
+    for k, (po, _) in enumerate(parts):
+        o[k::nproc] = po
+    err = "".join(e for _, e in parts)
+    return [(sp[k], o[k]) for k in range(len(docs))], err
 
-def judge_doc(spec_out, dv, dn):
-    """list of (key, what) contradictions between the implementation and the Spec for one document"""
-    if not spec_out.startswith(("valid ", "invalid:")):
+def modes_str(ms):
+    return "all modes" if len(ms) == len(MODES) else ",".join(ms)
+
+def judge_doc(spec_out, impl_out, flags=()):
+    """list of (key, what) contradictions between the implementation (16 modes) and the Spec for one document"""
+    bad = judge_doc0(spec_out, impl_out)
+    if "enum-padded" in flags:
+        # one cause, several symptoms (un-normalised value reported; false #FIXED / multiple-values errors):
+        # IGXMLScanner::normalizeAttValue treats enumerated types as CDATA on the namespaces path
+        out = []
+        for key, what, ms in bad:
+            if ms and all("-ig-ns1-" in k for k in ms) and key in ("doc:content-differs-from-spec", "doc:valid-document-reported-invalid"):
+                key = ENUM_NORM_KEY
+            out.append((key, what, ms))
+        bad = out
+    return [(k, w) for k, w, _ in bad]
+
+def judge_doc0(spec_out, impl_out):
+    if not spec_out.startswith(("valid ", "invalid:", "notwf:")):
         raise common.InfraError("dtdspec driver: " + spec_out[:200])
-    verdict, sattrs = spec_out.split(" attrs=", 1)
-    a, b = parse_impl(dv), parse_impl(dn)
+    verdict, sdump = spec_out.split(" dump=", 1)
+    m = parse_modes(impl_out)
+    if m is None:
+        return [("doc:no-verdict", "harness output: %s" % impl_out[:160], [])]
     bad = []
-    if a is None or b is None:
-        return [("doc:no-verdict", "harness output: %s / %s" % (dv[:80], dn[:80]))]
-    if a["f"] or a["exc"] != "-" or b["f"] or b["exc"] != "-":
-        bad.append(("doc:fatal-or-exception-on-wellformed-document",
-                    "fatal errors / exception on a well-formed document (validating: f=%d exc=%s, non-validating: f=%d exc=%s)" % (a["f"], a["exc"], b["f"], b["exc"])))
-        return bad
-    if verdict == "valid" and a["v"] > 0:
-        bad.append(("doc:valid-document-reported-invalid", "Spec validDoc = valid but %d validity error(s) were reported" % a["v"]))
-    if verdict != "valid" and a["v"] == 0:
+    if verdict.startswith("notwf:"):
         cls = verdict.split(":", 1)[1]
-        bad.append(("doc:missed:" + cls.split(",")[0], "Spec validDoc = invalid (%s) but no validity error was reported" % cls))
-    if b["v"] != 0:
-        bad.append(("doc:error-with-validation-off", "%d error(s) reported with validation off" % b["v"]))
-    if a["attrs"] != b["attrs"]:
-        bad.append(("doc:attributes-depend-on-validation", "attributes with validation on %s / off %s" % (a["attrs"], b["attrs"])))
-    elif a["attrs"] != sattrs:
-        bad.append(("doc:attributes-differ-from-spec", "reported attributes %s, Spec %s" % (a["attrs"], sattrs)))
+        ms = [k for k in MODES if m[k]["f"] == 0]
+        if ms:
+            bad.append(("doc:not-wellformed-not-fatal:" + cls.split(",")[0],
+                        "Spec: not well-formed (%s) but no fatal error in %s" % (cls, modes_str(ms)), ms))
+        return bad
+    ms = [k for k in MODES if m[k]["f"] or m[k]["exc"] != "-"]
+    if ms:
+        k = ms[0]
+        bad.append(("doc:fatal-or-exception-on-wellformed-document",
+                    "fatal errors / exception on a well-formed document in %s (f=%d exc=%s)" % (modes_str(ms), m[k]["f"], m[k]["exc"]), ms))
+        return bad
+    val = [k for k in MODES if k.endswith("v1")]
+    nov = [k for k in MODES if k.endswith("v0")]
+    if verdict == "valid":
+        ms = [k for k in val if m[k]["v"] > 0]
+        if ms:
+            bad.append(("doc:valid-document-reported-invalid", "Spec validDoc = valid but validity errors were reported in %s" % modes_str(ms), ms))
+    else:
+        cls = verdict.split(":", 1)[1]
+        ms = [k for k in val if m[k]["v"] == 0]
+        if ms:
+            bad.append(("doc:missed:" + cls.split(",")[0], "Spec validDoc = invalid (%s) but no validity error was reported in %s" % (cls, modes_str(ms)), ms))
+    ms = [k for k in nov if m[k]["v"] != 0]
+    if ms:
+        bad.append(("doc:error-with-validation-off", "errors reported with validation off in %s" % modes_str(ms), ms))
+    if verdict != "valid" and ("character-data-not-allowed" in verdict or "unique-element-type-declaration" in verdict):
+        # A validating parse reports character data in EMPTY / element content as a validity error and does not
+        # deliver it (IGXMLScanner::sendCharData); for such invalid documents only the attributes are compared.
+        # With a duplicated element type declaration (invalid; XML 1.0 does not say which one binds) the library
+        # lets the LAST declaration take effect, so the same holds there.
+        sdump = re.sub(r"\|\d+>", ">", sdump)
+        for k in MODES:
+            m[k]["dump"] = re.sub(r"\|\d+>", ">", m[k]["dump"])
+    ssax = sdump.replace("!", "")
+    dep = [k for k in val if m[k]["dump"] != m[k[:-1] + "0"]["dump"]]
+    if dep:
+        k = dep[0]
+        bad.append(("doc:content-depends-on-validation", "attributes / expanded character data differ with validation on %s and off %s (%s)"
+                    % (m[k]["dump"], m[k[:-1] + "0"]["dump"], modes_str(dep)), dep))
+    else:
+        ms = [k for k in MODES if m[k]["dump"] != (ssax if k.startswith("sax") else sdump)]
+        if ms:
+            k = ms[0]
+            bad.append(("doc:content-differs-from-spec", "reported attributes / character data %s, Spec %s (%s)"
+                        % (m[k]["dump"], ssax if k.startswith("sax") else sdump, modes_str(ms)), ms))
     return bad
 
 def gen_docs(ctx, n):
@@ -678,51 +894,62 @@ def gen_docs(ctx, n):
         k = "none"
         if r.chance(13, 20):
             k = mutate(doc, nel, r)
+        finish_doc(doc, r)
         kinds[k] = kinds.get(k, 0) + 1
-        docs.append((abstract_line(doc), render(doc, r)))
+        xml, ext = render(doc, r)
+        docs.append((abstract_line(doc), xml, ext, doc_flags(doc)))
     return docs, kinds
 
 def doc_check(ctx, docs, origin):
     res, err = run_docs(docs)
     by = {}
-    nvalid = 0; classes = {}
-    for (ab, xml), (sp, dv, dn) in zip(docs, res):
+    nvalid = 0; classes = {}; nsa = 0; next_ = 0
+    for (ab, xml, ext, flags), (sp, io) in zip(docs, res):
+        if ext is not None: next_ += 1
+        if 'standalone="yes"' in xml: nsa += 1
         if sp.startswith("valid "):
             nvalid += 1
-        else:
-            for c in sp.split(" attrs=")[0].split(":", 1)[1].split(","):
+        elif sp.startswith(("invalid:", "notwf:")):
+            for c in sp.split(" dump=")[0].split(":", 1)[1].split(","):
+                c = ("notwf:" if sp.startswith("notwf") else "") + c
                 classes[c] = classes.get(c, 0) + 1
-        for key, what in judge_doc(sp, dv, dn):
-            if key not in by or len(xml) < len(by[key][1]):
-                by[key] = (ab, xml, what, sp, dv, dn)
-    for key, (ab, xml, what, sp, dv, dn) in by.items():
+        for key, what in judge_doc(sp, io, flags):
+            if key not in by or len(xml) + len(ext or "") < len(by[key][1]) + len(by[key][2] or ""):
+                by[key] = (ab, xml, ext, what, sp, io)
+    for key, (ab, xml, ext, what, sp, io) in by.items():
         ctx.violations.append({"key": key, "concrete": True,
-            "what": "DTD validation of a generated document: %s. Document: %s" % (what, xml.replace("\n", " ")[:600]),
-            "replay": {"tier": "doc", "abstract": ab, "xml": xml, "spec": sp, "impl_validating": dv, "impl_nonvalidating": dn, "origin": origin}})
+            "what": "DTD validation of a generated document: %s. Document: %s%s" % (what, xml.replace("\n", " ")[:500],
+                    "" if ext is None else "  EXTERNAL SUBSET ext.dtd: " + ext.replace("\n", " ")[:300]),
+            "replay": {"tier": "doc", "abstract": ab, "xml": xml, "ext": ext, "spec": sp, "impl": io, "origin": origin}})
     if "runtime error" in err or "AddressSanitizer" in err:
         ctx.violations.append({"key": "doc-sanitizer", "concrete": True,
                                "what": "sanitizer report while validating generated documents: " + common.sanitizer_summary(err),
                                "replay": {"stderr": err[-2000:]}})
-    return nvalid, classes, res
+    return {"valid": nvalid, "classes": classes, "standalone_yes": nsa, "with_external_subset": next_}, res
 
 def doc_correspondence(ctx):
-    n = 20000 if ctx.thorough() else 1500
+    n = 6000 if ctx.thorough() else 500
     docs, kinds = gen_docs(ctx, n)
-    nvalid, classes, res = doc_check(ctx, docs, "correspondence")
+    st, res = doc_check(ctx, docs, "correspondence")
     ctx.stats["documents"] = n
-    ctx.stats["documents_valid_by_spec"] = nvalid
+    ctx.stats["document_parses"] = n * len(MODES)
+    ctx.stats["document_modes"] = MODES
+    ctx.stats["documents_valid_by_spec"] = st["valid"]
+    ctx.stats["documents_standalone_yes"] = st["standalone_yes"]
+    ctx.stats["documents_with_external_subset"] = st["with_external_subset"]
     ctx.stats["documents_mutation_kinds"] = kinds
-    ctx.stats["documents_violated_classes"] = classes
-    ctx.stats["evaluations"] = ctx.stats.get("evaluations", 0) + n
+    ctx.stats["documents_violated_classes"] = st["classes"]
+    ctx.stats["evaluations"] = ctx.stats.get("evaluations", 0) + n * len(MODES)
     for k in (0, 1, 2):
-        ctx.samples.append({"doc": docs[k][1].replace("\n", " ")[:300], "spec": res[k][0][:120], "impl": res[k][1][:120]})
+        ctx.samples.append({"doc": docs[k][1].replace("\n", " ")[:300], "ext": docs[k][2], "spec": res[k][0][:120], "impl": res[k][1][:160]})
 
 def doc_replay(ctx, r):
-    res, _ = run_docs([(r["abstract"], r["xml"])])
-    sp, dv, dn = res[0]
-    p = common.run_harness("hx_cm", input=("DV " + hexdoc(r["xml"]) + "\n").encode())
+    res, _ = run_docs([(r["abstract"], r["xml"], r.get("ext"), ())], verbose=True)
+    sp, io = res[0]
     print("document:\n" + r["xml"])
-    print("spec              :", sp)
-    print("impl validating   :", p.stdout.decode(errors="replace").strip())
-    print("impl non-validating:", dn)
+    if r.get("ext") is not None:
+        print("external subset (ext.dtd):\n" + r["ext"])
+    print("spec :", sp)
+    for seg in io.split(" ## "):
+        print("impl :", seg)
     return 0
